@@ -58,5 +58,13 @@ TEXT.update({
     "C17": T("v1 scripts with add / replace / remove / re-add interleaved with traffic: reads of a removed or replaced channel stop at the return of the call, tags and order per channel, capacity across the history, everything read delivered once, GracefulStop completes.",
              BUB, "stateful property-based testing (rapid scripts) with owned schedule; read-counter and identity oracle", "4/C17"),
 })
+TEXT.update({
+    "C19": T("After every kind of termination generated by the three labs (normal, graceful, Stop, cancel at arbitrary points, divider fault; all disciplines of both versions, handler goroutines of the simplified ones) the goroutine dump must contain no goroutine created by the module.",
+             BUB + "Leak = goroutine whose 'created by' frame is in github.com/akramarenkov/cqos.",
+             "property-based testing (rapid scripts) with a goroutine-dump oracle after generated termination paths", "4/C19"),
+    "C20": T("Free-running real-time generated scenarios (producers, handlers, control calls, slice-keeping consumers, jitter) for every discipline plus the bubble scripts of the three labs, all built with -race; a race report is a violation, confirmed by re-running the script.",
+             "Trusted: the Go race detector. Only executed interleavings are examined; real-time schedules are not reproducible from the seed.",
+             "randomised concurrency stress under the race detector, scenarios generated by rapid", "4/C20"),
+})
 
 NOT_APPLICABLE = {}
